@@ -294,3 +294,39 @@ func (e *Engine) putSearchState(state *SearchState) {
 	// Local slot occupied (concurrent goroutine), fall back to pool.
 	e.statePool.put(state)
 }
+
+// The helpers below run a PikeVM search on a pooled, per-goroutine simulator.
+// The engine-level e.pikevm keeps per-search state, so using it directly on a
+// search path is a data race as soon as two goroutines search with one Regex
+// (wrong results, panics, non-termination); it is kept only as a template for
+// configuration (SetLongest, skip-ahead).
+
+func (e *Engine) pikeSearch(haystack []byte) (int, int, bool) {
+	state := e.getSearchState()
+	defer e.putSearchState(state)
+	return state.pikevm.Search(haystack)
+}
+
+func (e *Engine) pikeSearchAt(haystack []byte, at int) (int, int, bool) {
+	state := e.getSearchState()
+	defer e.putSearchState(state)
+	return state.pikevm.SearchAt(haystack, at)
+}
+
+func (e *Engine) pikeIsMatch(haystack []byte) bool {
+	state := e.getSearchState()
+	defer e.putSearchState(state)
+	return state.pikevm.IsMatch(haystack)
+}
+
+func (e *Engine) pikeSearchWithSlotTable(haystack []byte, mode nfa.SearchMode) (int, int, bool) {
+	state := e.getSearchState()
+	defer e.putSearchState(state)
+	return state.pikevm.SearchWithSlotTable(haystack, mode)
+}
+
+func (e *Engine) pikeSearchWithSlotTableAt(haystack []byte, at int, mode nfa.SearchMode) (int, int, bool) {
+	state := e.getSearchState()
+	defer e.putSearchState(state)
+	return state.pikevm.SearchWithSlotTableAt(haystack, at, mode)
+}
